@@ -5,6 +5,7 @@ import (
 	"go/ast"
 	"go/token"
 	"go/types"
+	"os"
 	"sort"
 	"strings"
 	"time"
@@ -237,6 +238,18 @@ func (e *Enc) finish(ur *UnitResult, opt runOpts) {
 			ur.Props[q.Name] = con.safetyProps
 		}
 	}
+	if only := os.Getenv("GOVC_ONLY"); only != "" { // debugging aid: solve a subset of the obligations
+		var keep []*Query
+		for _, q := range e.queries {
+			for _, pat := range strings.Split(only, "|") {
+				if strings.Contains(q.Name+" "+q.Pos, pat) {
+					keep = append(keep, q)
+					break
+				}
+			}
+		}
+		e.queries = keep
+	}
 	e.addAxioms()
 	ur.ctorKeys = map[string]string{}
 	for _, c := range e.tb.ifaceCtors {
@@ -255,7 +268,7 @@ func (e *Enc) finish(ur *UnitResult, opt runOpts) {
 			}
 		}
 	}
-	u := &Unit{Name: ur.Name, tb: e.tb, assumes: e.assumes, queries: e.queries, hints: e.hints}
+	u := &Unit{Name: ur.Name, tb: e.tb, assumes: e.assumes, scopes: e.assumeScope, queries: e.queries, hints: e.hints}
 	t1 := time.Now()
 	ur.Results = u.Solve(opt.solvers, opt.timeoutMs, opt.seed, opt.agree, opt.dumpDir)
 	ur.SolveS = time.Since(t1).Seconds()
